@@ -41,7 +41,7 @@ def run(pid, tier, seed, replay=None):
         ck.cov["traces_validated_against_impl"] = len(rows)
         ck.cov["evaluations"] = len(rows)
         ck.cov["distinct_nontrivial"] = len(rows)
-        ck.cov["rule"] = "files of 1..6 dimensions, orders 0..5, 0..50 mixed auxiliary keys (short/HIERARCH, value lengths 0..68) or 60..260 keys of one kind with card-filling values; each loaded without convolution and with 2..8 kernel knots in a random dimension"
+        ck.cov["rule"] = "files of 1..6 dimensions, orders 0..5, 0..50 mixed auxiliary keys (short/HIERARCH, value lengths 0..68) or 60..260 keys of one kind with card-filling values; every seventh file has one axis of 300..900 knots; each loaded without convolution and with 2..8 kernel knots in a random dimension"
         ck.sample({k: rows[1][k] for k in ("m", "cd", "nk", "peak", "estimate")})
         return ck.finish(exhaustive=False)
     finally:
